@@ -4,7 +4,7 @@
    (Model/SessionSpec.v).  Server behaviour ranges over ALL scripts (lists over
    the reply alphabet [sitem], including unexpected elements, malformed XML, close). *)
 From Coq Require Import List ZArith NArith Bool.
-From XV Require Import Lib.Sx Model.Session Model.SessionSpec Proofs.SessionP Proofs.SessionSpecP.
+From XV Require Import Lib.Sx Model.Session Model.SessionSpec Proofs.SessionP Proofs.SessionSpecP Proofs.SessionWaitP.
 Import ListNotations.
 
 (* success (and with it the SessionEstablished announcement, which Client.connect
@@ -30,6 +30,25 @@ Theorem C03_requests_ordered : forall cfg dial tls p script,
   ordered (reqs (outs (connect cfg dial tls p script))) = true.
 Proof. exact connect_ordered. Qed.
 
+(* "each sent only after the previous step was confirmed": every request carries (ghost
+   [o_seen]) the server items the client consumed since its previous request; the
+   first request follows nothing, and every later one follows exactly the items that
+   confirm the request before it ([confirms]: header+features after an open,
+   <proceed/> after <starttls/>, <success/> after <auth/>, <failed/> after <resume/>
+   when a bind follows, the bind result, the session result) ... *)
+Theorem C03_waits_for_confirmation : forall cfg dial tls p script,
+  chain None (outs (connect cfg dial tls p script)) = true.
+Proof. exact connect_chain. Qed.
+
+(* ... and the ghost is what was really read from this server: the items the client
+   had consumed when it sent its last request are a prefix of the script, so request k
+   cannot have been sent before the server had produced the first
+   |o_seen 1| + ... + |o_seen k| items (the scripted server checks exactly this
+   inequality against the number of items it had sent when each request arrived) *)
+Theorem C03_seen_is_read : forall cfg dial tls p script,
+  exists rest, script = consumed (outs (connect cfg dial tls p script)) ++ rest.
+Proof. exact connect_consumed. Qed.
+
 (* [connect] is a total function defined by structural case analysis on a finite
    script prefix: it returns for every script (never stuck), reading at most the
    items it pattern-matches. Non-vacuity: a full negotiation with TLS, resumption
@@ -45,9 +64,14 @@ Example C03_example :
                  SEnabled [9%N] ResTrue] in
   res (connect cfg true true p script) = Ok /\
   reqs (outs (connect cfg true true p script))
-   = [ROpen; RStartTls; ROpen; RAuth mech_plain; ROpen; RResume [7%N] 0; RBind [] 1; RSession 2; REnable true].
-Proof. split; reflexivity. Qed.
+   = [ROpen; RStartTls; ROpen; RAuth mech_plain; ROpen; RResume [7%N] 0; RBind [] 1; RSession 2; REnable true] /\
+  map o_seen (outs (connect cfg true true p script))
+   = [[]; [SHeader []; SFeatures f0]; [SProceed]; [SHeader []; SFeatures f1]; [SSuccess]; [SHeader []; SFeatures f2];
+      [SFailed]; [SIq TResult (PlBind [1%N]) false]; [SIq TResult PlNone false]].
+Proof. repeat split; reflexivity. Qed.
 
 Print Assumptions C03_connect_ok_iff.
 Print Assumptions C03_otherwise_error.
 Print Assumptions C03_requests_ordered.
+Print Assumptions C03_waits_for_confirmation.
+Print Assumptions C03_seen_is_read.
